@@ -182,14 +182,17 @@ class Stepper:
             a, b = post[free, 0], post[free, 1]
             zero = (a == 0.0) & (b == 0.0)
             shape = a + 1.0
-            ok = zero | (np.isfinite(a) & np.isfinite(b) & (shape > 0) & (b > 0)
-                         & (shape <= ms * (1 + 1e-9)) & (shape >= (1 - 1e-9) / ms))
+            # (the code also keeps shape >= 1/max_shape; the statement only caps it from above, so that is recorded as a
+            # probe, not demanded)
+            ok = zero | (np.isfinite(a) & np.isfinite(b) & (shape > 0) & (b > 0) & (shape <= ms * (1 + 1e-9)))
+            if np.any(~zero & (shape < (1 - 1e-9) / ms)):
+                self.stat("probe.shape_below_lower_bound")
             if not np.all(ok):
                 u = np.flatnonzero(free)[np.flatnonzero(~ok)[0]]
                 self.viol.append(violation(
                     "improper-state", where.split(":")[0],
                     f"after {where}: free node {u} has natural parameters {post[u].tolist()} (shape {post[u, 0] + 1!r}, "
-                    f"rate {post[u, 1]!r}) outside (0,0) / [1/max_shape, max_shape]={ms} with positive rate"))
+                    f"rate {post[u, 1]!r}): neither (0,0) nor a proper gamma with shape <= max_shape={ms}"))
                 raise Abort("violation")
 
     # -- deliveries ---------------------------------------------------------
@@ -592,7 +595,7 @@ class C05Engine(_EPBase):
                 "tape-generated input crossed with max_iterations, max_shape, rescaling on/off, singletons_phased, "
                 "checked at return against the three clauses of the statement - and a fault half - the same input "
                 "stepped message by message with skip/rescale faults, checking after every step that each free node "
-                "is either still (0,0) or a proper gamma within [1/max_shape, max_shape], then the real tail "
+                "is either still (0,0) or a proper gamma with shape <= max_shape, then the real tail "
                 "(propagate_mutations, phase switch, rescale when all nodes are proper). Non-trivial = a fault fired, "
                 "the cap was active or a natural skip occurred; distinct = distinct event-log digest.")
 
